@@ -1,0 +1,34 @@
+//go:build verif
+
+/*
+ * Licensed to the Apache Software Foundation (ASF) under one or more
+ * contributor license agreements.  See the NOTICE file distributed with
+ * this work for additional information regarding copyright ownership.
+ * The ASF licenses this file to You under the Apache License, Version 2.0
+ * (the "License"); you may not use this file except in compliance with
+ * the License.  You may obtain a copy of the License at
+ *
+ *     http://www.apache.org/licenses/LICENSE-2.0
+ *
+ * Unless required by applicable law or agreed to in writing, software
+ * distributed under the License is distributed on an "AS IS" BASIS,
+ * WITHOUT WARRANTIES OR CONDITIONS OF ANY KIND, either express or implied.
+ * See the License for the specific language governing permissions and
+ * limitations under the License.
+ */
+
+package dao
+
+// Verification contracts (comment-only, tag verif) for property C05: a TCC prepare registers its
+// Verification contracts (comment-only, tag verif) for property C06: the fence store as the fence
+// handler relies on it. "No fence record" is an answer, not a failure: the handler's suspension
+// branch (rollback before try) is reached only when the query returns (nil, nil).
+
+//@ func (*TccFenceStoreDatabaseMapper).QueryTCCFenceDO
+//@   prop C06
+//@   requires t != nil && tx != nil && !ghost.step_failed
+//@   modifies ghost.stmts_open, ghost.step_failed
+//@   ensures no-record-is-not-an-error: !ghost.row_found && !ghost.step_failed ==> result0 == nil && result1 == nil
+//@   ensures record-found: ghost.row_found && result1 == nil ==> result0 != nil
+//@   ensures failure-surfaces: ghost.step_failed ==> result1 != nil && result0 == nil
+//@   ensures statement-released: ghost.stmts_open == old(ghost.stmts_open)
